@@ -159,6 +159,18 @@ func main() {
 		resp := g1Expand(g1Req{Prop: os.Args[2], Tier: os.Args[3], Cfg: cfgI, Path: os.Args[5:]})
 		b, _ := json.MarshalIndent(resp, "", " ")
 		fmt.Println(string(b))
+	case "trace": // debugging: trace <prop> <tier> <cfg> [step...] prints the state key after every step
+		cfgI, _ := strconv.Atoi(os.Args[4])
+		sp := g1Specs[os.Args[2]](os.Args[3])
+		w := NewWorld(sp.Configs[cfgI], sp.Alpha)
+		for _, st := range os.Args[5:] {
+			ok := w.Step(st)
+			fmt.Printf("%-4s ok=%v infra=%q\n     %s\n     model=%s\n", st, ok, w.infra, w.Key(), w.model().Dump(nil))
+		}
+		if sp.Check != nil {
+			fmt.Println("check:", sp.Check(w, os.Args[5:]))
+		}
+		w.Teardown()
 	case "wlstats": // debugging: compaction kinds per round of the G3 workloads
 		for i, wl := range workloads(false) {
 			var kinds []string
